@@ -48,6 +48,8 @@ def adapter_entry(a):
         return ["wrap", a["tag"]]
     if a["a"] == "prefix":
         return ["prefix", a["prefix"]]
+    if a["a"] == "drop":
+        return ["drop", a["tag"]]
     if a["a"] == "auth":
         return auth_entry(a["kind"], a)
     raise ValueError(a)
@@ -188,7 +190,7 @@ class HttpModel:
         exp_headers = {}
         for k, v in headers.items():
             exp_headers[k.capitalize()] = v
-        wraps = [e[1] for e in chain if e[0] == "wrap"]
+        wraps = [(e[0], e[1]) for e in chain if e[0] in ("wrap", "drop")]
         return {"url": url, "method": req["verb"].upper(), "body": body, "headers": exp_headers,
                 "auth": auth, "wraps": wraps, "ids": imp["ids"],
                 "caller_reqid": (req.get("headers") or {}).get("X-Request-ID")}
@@ -196,6 +198,6 @@ class HttpModel:
     @staticmethod
     def expect_result(exp, decoded):
         ret = decoded
-        for tag in reversed(exp["wraps"]):
-            ret = {"by": tag, "inner": ret}
+        for kind, tag in reversed(exp["wraps"]):
+            ret = None if kind == "drop" else {"by": tag, "inner": ret}
         return ret
